@@ -2,6 +2,7 @@ package rules
 
 import (
 	"go/token"
+	"strings"
 
 	"golang.org/x/tools/go/ssa"
 
@@ -171,9 +172,19 @@ func c06MatchedFlag(r *an.Run) {
 
 func c06FileMatchNeedsNode(r *an.Run) {
 	r.Rule("R3-file-match-needs-a-node-match")
-	f, apply, _ := traversalClosure(r)
-	if f == nil || apply == nil {
+	ts := traversalState(r)
+	if ts == nil || ts.apply == nil || ts.clo == nil {
 		return
+	}
+	f, apply := ts.f, ts.apply
+	// the list the callback appends to
+	listCell := ""
+	for _, in := range an.StoresIn(ts.clo) {
+		if st, ok := in.(*ssa.Store); ok {
+			if name, isCell := ts.cellOf(st.Addr); isCell && strings.HasSuffix(an.ShortType(st.Addr.Type()), "[]*engine.SearchResult") {
+				listCell = name
+			}
+		}
 	}
 	var edges []an.CtrlEdge
 	for _, c := range an.EqCases(f, func(v ssa.Value) bool {
@@ -181,7 +192,8 @@ func c06FileMatchNeedsNode(r *an.Run) {
 		if !ok || !an.IsCallTo(call, "builtin:len") {
 			return false
 		}
-		return an.Path(call.Call.Args[0]) == "matches"
+		name, isCell := ts.parentLoadOf(call.Call.Args[0])
+		return isCell && name == listCell && listCell != ""
 	}) {
 		if k, ok := an.ConstInt(c.Key); ok && k == 0 {
 			edges = append(edges, edgeTo(c.If.Block(), c.Else))
